@@ -43,6 +43,9 @@ import (
 //	                          is empty). The model has no carrier: binding sees the BYTES of the body only, a request
 //	                          without a body is a request with an empty body. r.Body == nil is outside the domain
 //	                          (net/http never hands that to a handler; the unchanged JSON/XML branches panic on it).
+//	tbind <type> <api> ...    the same bind into one of several struct types (anonymous, function-local, named; with and
+//	                          without rules), validator mode `keep` = the validator of the previous op stays: see
+//	                          engine_bind_vt.go.
 //	esc/unesc/pq/enc          net/url percent-encoding against the model's codec.
 //	rt <format> <api> <type> <value-id>
 //	                          SAMPLED round trip of a representative struct value through a third-party codec
@@ -921,6 +924,9 @@ func runRt(f []string) (ans string, oracle []string) {
 /**************** Run ****************/
 
 func (bindEngine) Run(ops []string) (ans []string, oracle []string) {
+	// every case starts and ends with a fresh standard validator (tbind ops with validator mode `keep` share one)
+	binding.ResetValidator()
+	defer binding.ResetValidator()
 	for _, op := range ops {
 		f := strings.Fields(op)
 		var o []string
@@ -946,6 +952,13 @@ func (bindEngine) Run(ops []string) (ans []string, oracle []string) {
 					return "bad-op"
 				}
 				r, oo := runBind(f[1], f[1:])
+				o = append(o, oo...)
+				return r
+			case "tbind": // engine_bind_vt.go
+				if len(f) != 13 {
+					return "bad-op"
+				}
+				r, oo := vtRun(f)
 				o = append(o, oo...)
 				return r
 			case "esc":
@@ -1163,6 +1176,7 @@ func (bindEngine) Corpus() []Case {
 		}
 		add("roundtrip", ops...)
 	}
+	cs = append(cs, vtCorpus()...) // several struct types under one validator (engine_bind_vt.go)
 	return cs
 }
 
@@ -1395,6 +1409,9 @@ func genHeaders(r *Rand) [][2]string {
 }
 
 func (bindEngine) Gen(r *Rand, tier string) Case {
+	if r.Chance(1, 12) { // several struct types bound under ONE validator (engine_bind_vt.go)
+		return vtGen(r, tier)
+	}
 	switch x := r.Intn(22); {
 	case x >= 20: // a body method with an empty body x every way of carrying "no body" x a query string that would bind
 		m := r.Pick([]string{"POST", "PUT", "PATCH"})
